@@ -47,7 +47,7 @@ class C20(Check):
     outside = ['directions outside the catalogue (similarity invariance is an argument, not a proof)', '3-D', 'polylines whose legs all have zero length']
     classes = {'vertical_segment': 'the segment (or a leg of the polyline) is vertical: x1 == x2'}
     budget = {'quick': 200, 'thorough': 1800}
-    engine_opts = {'sqrt_mono': True, 'verify_timeout_ms': 30000}     # implied monotonicity facts between the square roots of a path (decides nearest-end comparisons)
+    engine_opts = {'sqrt_mono': True, 'verify_timeout_ms': 15000}     # implied monotonicity facts between the square roots of a path (decides nearest-end comparisons)
 
     def bounds(self, tier):
         return dict(segments='%d catalogue directions x {free query point, query point on the segment, query point at either end}' % len(DIRS),
@@ -59,7 +59,7 @@ class C20(Check):
             for where in ('free', 'on', 'end0', 'end1'):
                 js.append(dict(kind='seg', d=list(d), where=where))
         for k, p in enumerate(POLYS):
-            if tier == 'quick' and k in (3, 5, 7):      # three legs with irrational lengths: ~10 s per 'no closer point' query, thorough tier
+            if tier == 'quick' and k in (3, 5, 7, 8):      # three legs with irrational lengths: ~10 s per 'no closer point' query, thorough tier
                 continue
             js.append(dict(kind='poly', poly=k, api='proj_polyligne'))
             js.append(dict(kind='poly', poly=k, api='mapOnTrack'))
